@@ -4,7 +4,7 @@ from props.fsmlib import *
 def cases(tier):
     L = []
     T = 1 if tier == 'quick' else 3
-    fams = [('futil', [(5, 2), (6, 5), (5, 5), (6, 2)]), ('fnu', [(5, 2), (6, 2)])] if tier == 'quick' else [('futil', [(5, 2), (6, 5), (5, 5), (6, 2)]), ('fnu', [(5, 2), (6, 2)]), ('fn4', [(6, 0), (5, 0)])]
+    fams = [('futil', [(5, 2), (6, 5), (5, 5), (6, 2)]), ('fnu', [(5, 2)])] if tier == 'quick' else [('futil', [(5, 2), (6, 5), (5, 5), (6, 2)]), ('fnu', [(5, 2)]), ('fn4', [(6, 0), (5, 0)])]
     FAMILY.setdefault('fn4', ('N:Apex(A, B, C, D)', 'random root of width 4'))
     for fam, reqs in fams:
         o = dict(sublimit=2, callbacks=['life', 'util', 'select'], act=[], kinds=0)
@@ -29,4 +29,5 @@ def run(tier, seed):
         'utilize oracle: leftmost argmax of the statement\'s recursive utility (head x best sub-state; orthogonal: head x mean) computed with the same float operations',
         'randomize oracle: a sub-state is always chosen, it has top rank and positive utility, exactly one random number per random region; interval clause evaluated in double with the stated rounding slack delta = (width+1) * 2^-24 * sum (the statement speaks of real intervals, the code computes in float)',
         'precondition assumed: the top-rank utilities of the resolved region have a positive sum',
+        'nested regions: utilize is checked on a Utilitarian region with a nested composite region (recursive utility); the randomize oracle is per region with plain sub-states - a random region nested in the resolved one (two random numbers, product utilities) is outside this check and is covered for well-formedness only by C01 (fixture fnn)',
         'immediateUtilize / immediateRandomize on the region head (case split), guards approve, callbacks silent'])
